@@ -229,6 +229,9 @@ def _centers_dense(X, sample_weight, labels, n_clusters, distances, X_sort_index
         # to optimize
         for i in range(n_clusters):
             sub = X[labels == i]
+            if sub.shape[0] == 0:
+                # empty cluster: keeps the point it was reassigned to above
+                continue
             med = numpy.median(sub, axis=0)
             centers[i, :] = med
     else:
